@@ -1,4 +1,5 @@
-"""C01 fragments: the flag formulas and the auto-reset guard of the two VecEnv implementations."""
+"""C01 fragments: the flag formulas and the auto-reset guard of the two VecEnv implementations.
+Patterns anchor on the assigned target / the keyword only, never on the captured expression."""
 _D = "stable_baselines3/common/vec_env/dummy_vec_env.py"
 _S = "stable_baselines3/common/vec_env/subproc_vec_env.py"
 _B = [("terminated", "bool"), ("truncated", "bool")]
@@ -8,11 +9,12 @@ SPECS = [
          kind="expr", ret="bool", inputs=_B),
     dict(name="dummy_timelimit", file=_D, qual="DummyVecEnv.step_wait",
          start=r"^self\.buf_infos\[env_idx\]\['TimeLimit\.truncated'\] = ", end=None, kind="expr", ret="bool", inputs=_B),
-    dict(name="dummy_autoreset_guard", file=_D, qual="DummyVecEnv.step_wait", start=r"^if self\.buf_dones\[env_idx\]:", end=None,
-         kind="test", inputs=[("done", "bool")], subst={"self.buf_dones[env_idx]": "done"}),
+    dict(name="dummy_autoreset_guard", file=_D, qual="DummyVecEnv.step_wait", start=r"^if\b", end=None,
+         kind="test", inputs=[("done", "bool"), ("terminated", "bool"), ("truncated", "bool")], subst={"self.buf_dones[env_idx]": "done"}),
     # SubprocVecEnv worker, 'step' branch
     dict(name="worker_done", file=_S, qual="_worker", start=r"^done = ", end=None, kind="expr", ret="bool", inputs=_B),
     dict(name="worker_timelimit", file=_S, qual="_worker", start=r"^info\['TimeLimit\.truncated'\] = ", end=None,
          kind="expr", ret="bool", inputs=_B),
-    dict(name="worker_autoreset_guard", file=_S, qual="_worker", start=r"^if done:", end=None, kind="test", inputs=[("done", "bool")]),
+    dict(name="worker_autoreset_guard", file=_S, qual="_worker", start=r"^if (?!cmd\b)", end=None, kind="test",
+         inputs=[("done", "bool"), ("terminated", "bool"), ("truncated", "bool")]),
 ]
